@@ -72,6 +72,7 @@ type vpRun struct {
 	done     []bool
 	inHandler bool
 	check    bool // assert the C01 ordering rules at every dispatch
+	yieldInHandler bool // offer a scheduling point in the middle of every handler (concurrency harnesses)
 }
 
 func vpNewRun(p *vpProg, check bool) *vpRun {
@@ -122,6 +123,9 @@ func (r *vpRun) Handle(e Event) error {
 				verifrt.Assert(r.p.time[o] != r.p.time[id], "same-time-same-class-in-schedule-order")
 			}
 		}
+	}
+	if r.yieldInHandler {
+		verifrt.Yield()
 	}
 	r.done[id] = true
 	r.handled = append(r.handled, id)
